@@ -114,8 +114,108 @@ pub fn graph_decls(kinds: &[Kind], edges: &[Vec<u8>]) -> Vec<String>
 			}
 		}
 	}
-	decls.push("fn main() -> i32\n{\n\treturn: 0\n}\n".to_string());
+	// next to main: the size of every structure as a constant (the value-level oracle reads the
+	// constants of an accepted program from its IR)
+	let mut last = String::new();
+	for u in 0..n
+	{
+		if kinds[u] == Kind::Struct
+		{
+			last.push_str(&format!("const Z{u}: usize = |:{}|;\n", name(u)));
+		}
+	}
+	last.push_str("fn main() -> i32\n{\n\treturn: 0\n}\n");
+	decls.push(last);
 	decls
+}
+
+/// The values the documented semantics give the constants of an acyclic graph program: C_u = 1 +
+/// the constants and structure sizes it names; Z_u = |:S_u|; a structure is laid out with natural
+/// alignment (u8 members and arrays of u8: 1; pointers: 8 bytes).
+pub fn graph_values(kinds: &[Kind], edges: &[Vec<u8>]) -> std::collections::BTreeMap<String, u64>
+{
+	let n = kinds.len();
+	fn eval(u: usize, kinds: &[Kind], edges: &[Vec<u8>], memo: &mut Vec<Option<(u64, u64)>>) -> (u64, u64)
+	{
+		if let Some(v) = memo[u]
+		{
+			return v;
+		}
+		let n = kinds.len();
+		let r = match kinds[u]
+		{
+			Kind::Const =>
+			{
+				let mut value = 1;
+				for v in 0..n
+				{
+					if edges[u][v] == 1
+					{
+						value += eval(v, kinds, edges, memo).0;
+					}
+				}
+				(value, 8)
+			}
+			Kind::Struct =>
+			{
+				let (mut size, mut align) = (1u64, 1u64);
+				for v in 0..n
+				{
+					let (msize, malign) = match (edges[u][v], kinds[v])
+					{
+						(1, Kind::Struct) => eval(v, kinds, edges, memo),
+						(1, Kind::Const) => (eval(v, kinds, edges, memo).0, 1),
+						(2, Kind::Struct) => (8, 8),
+						_ => continue,
+					};
+					size = (size + malign - 1) / malign * malign + msize;
+					align = align.max(malign);
+				}
+				((size + align - 1) / align * align, align)
+			}
+		};
+		memo[u] = Some(r);
+		r
+	}
+	let mut memo = vec![None; n];
+	let mut out = std::collections::BTreeMap::new();
+	for u in 0..n
+	{
+		let (value, _) = eval(u, kinds, edges, &mut memo);
+		match kinds[u]
+		{
+			Kind::Const => out.insert(format!("C{u}"), value),
+			Kind::Struct => out.insert(format!("Z{u}"), value),
+		};
+	}
+	out
+}
+
+/// The usize constants of a module as its IR states them.
+fn constants_in_ir(ir: &str) -> std::collections::BTreeMap<String, u64>
+{
+	let mut out = std::collections::BTreeMap::new();
+	for line in ir.lines()
+	{
+		let Some(rest) = line.strip_prefix('@')
+		else
+		{
+			continue;
+		};
+		let Some((name, tail)) = rest.split_once(" = ")
+		else
+		{
+			continue;
+		};
+		if let Some(i) = tail.find("constant i64 ")
+		{
+			if let Ok(v) = tail[i + 13..].trim().parse::<u64>()
+			{
+				out.insert(name.to_string(), v);
+			}
+		}
+	}
+	out
 }
 
 /// Which cycle codes the model expects: empty = acyclic (must be accepted).
@@ -304,7 +404,8 @@ pub fn work(spec: &Value, w: &mut WorkerCtx)
 				let texts: Vec<String> = perms.iter().map(|p| graph_program(&kinds, &edges, p)).collect();
 				w.result.transitions += texts.len() as u64;
 				let what = if expect.is_empty() { "acyclic graph".to_string() } else { format!("cyclic graph (model: {model:?})") };
-				judge_orders(&texts, Some(expect), &what, w);
+				let values = if expect.is_empty() { Some(graph_values(&kinds, &edges)) } else { None };
+				judge_orders_and_values(&texts, Some(expect), &what, w, values.as_ref());
 			}
 		}
 		"bystanders" =>
@@ -333,7 +434,8 @@ pub fn work(spec: &Value, w: &mut WorkerCtx)
 					}
 					w.result.transitions += texts.len() as u64;
 					let what = format!("{} graph with a bystander ({}) :: graph {code} of {n} containers, kinds {mask}", if expect.is_empty() { "acyclic" } else { "cyclic" }, BYSTANDERS[b].0);
-					judge_orders(&texts, Some(expect.clone()), &what, w);
+					let values = if expect.is_empty() { Some(graph_values(&kinds, &edges)) } else { None };
+					judge_orders_and_values(&texts, Some(expect.clone()), &what, w, values.as_ref());
 				}
 			}
 		}
@@ -422,7 +524,13 @@ pub fn work(spec: &Value, w: &mut WorkerCtx)
 				{
 					let (what, texts) = deep_type_cell(&terms[ti], pos);
 					w.result.transitions += texts.len() as u64;
-					judge_orders(&texts, None, &what, w);
+					// the size of a type must not depend on the arrangement either
+					let mut model = std::collections::BTreeMap::new();
+					if let Some(size) = deep_size(&terms[ti])
+					{
+						model.insert("K".to_string(), size);
+					}
+					judge_orders_and_values(&texts, None, &what, w, if pos == "size-of operand" { Some(&model) } else { None });
 				}
 			}
 		}
@@ -626,6 +734,30 @@ fn deep_features(t: &str) -> String
 	f.join(", ")
 }
 
+/// The storage a deep type term occupies (None: it has no compile-time size): pointers of every
+/// kind are 8 bytes, `[3]T` is 3 and `[N]T` (N = 2) is 2 times the element, the three sized bases
+/// are 4 bytes.
+pub fn deep_size(t: &str) -> Option<u64>
+{
+	if t.starts_with('&')
+	{
+		return Some(8);
+	}
+	if let Some(rest) = t.strip_prefix("[3]")
+	{
+		return deep_size(rest).map(|s| 3 * s);
+	}
+	if let Some(rest) = t.strip_prefix("[N]")
+	{
+		return deep_size(rest).map(|s| 2 * s);
+	}
+	match t
+	{
+		"i32" | "S" | "W" => Some(4),
+		_ => None,
+	}
+}
+
 pub fn deep_type_cell(t: &str, pos: &str) -> (String, Vec<String>)
 {
 	let helpers = "struct S\n{\n\ta: i32,\n}\nword32 W\n{\n\ta: i32,\n}\nstruct O;\n";
@@ -806,12 +938,19 @@ fn documented_legality(t: &str, pos: &str) -> Option<Vec<u16>>
 /// the expectation when there is one.
 fn judge_orders(texts: &[String], expect: Option<Vec<u16>>, what: &str, w: &mut WorkerCtx)
 {
+	judge_orders_and_values(texts, expect, what, w, None)
+}
+
+/// `values`: what the constants named in the map must be in the IR of every accepted order.
+fn judge_orders_and_values(texts: &[String], expect: Option<Vec<u16>>, what: &str, w: &mut WorkerCtx, values: Option<&std::collections::BTreeMap<String, u64>>)
+{
 	w.result.states += 1;
 	// the part before " :: " (when present) is the cause-level class of the case
 	let class: String = what.split(" :: ").next().unwrap_or(what).chars().map(|c| if c.is_ascii_digit() { '#' } else { c }).collect();
 	let desc = || json!({"what": what, "orders": texts, "expect": expect, "sig_hint": class, "size": texts[0].len()});
 	let d = desc().to_string().into_bytes();
 	let size = texts[0].len() as u64;
+	let want_values = values.is_some();
 	let outcome = w.run_case(&d, || {
 		texts
 			.iter()
@@ -825,16 +964,53 @@ fn judge_orders(texts: &[String], expect: Option<Vec<u16>>, what: &str, w: &mut 
 					Verdict::Rejected { .. } => 1,
 					Verdict::InternalError(_) => 2,
 				};
-				(kind, codes)
+				let constants = match &v
+				{
+					Verdict::Ok { irs, .. } if want_values => irs.first().map(|ir| constants_in_ir(ir)),
+					_ => None,
+				};
+				((kind, codes), constants)
 			})
 			.collect::<Vec<_>>()
 	});
 	match outcome
 	{
-		CaseOutcome::Done(results) =>
+		CaseOutcome::Done(results_and_constants) =>
 		{
 			w.result.validated += texts.len() as u64;
 			let mut ok = true;
+			if let Some(values) = values
+			{
+				for (k, (_, constants)) in results_and_constants.iter().enumerate()
+				{
+					let Some(constants) = constants
+					else
+					{
+						continue;
+					};
+					let wrong: Vec<String> = values.iter().filter(|(name, v)| constants.get(*name) != Some(*v)).map(|(name, v)| format!("{name} = {:?} (model: {v})", constants.get(name))).collect();
+					if !wrong.is_empty()
+					{
+						ok = false;
+						let kind = if wrong.iter().any(|x| x.starts_with('Z')) { "size of a structure" } else { "value of a constant" };
+						w.result.violation(&format!("wrong-constant-in-some-order:{kind}"), size, &desc, || format!("{what}: in order {k} the IR gives {}\n{}", wrong.join(", "), texts[k]));
+						break;
+					}
+				}
+			}
+			if values.is_some()
+			{
+				// whatever the model says: the constants of the module must not depend on the order
+				let maps: Vec<(usize, &std::collections::BTreeMap<String, u64>)> = results_and_constants.iter().enumerate().filter_map(|(k, r)| r.1.as_ref().map(|m| (k, m))).collect();
+				if let Some((k, m)) = maps.iter().find(|(_, m)| *m != maps[0].1)
+				{
+					ok = false;
+					w.result.violation(&format!("order-dependent-constant:{class}"), size, &desc, || {
+						format!("{what}: the constants of the module depend on the declaration order: order {} gives {:?}, order {k} gives {:?}\n--- order {}\n{}\n--- order {k}\n{}", maps[0].0, maps[0].1, m, maps[0].0, texts[maps[0].0], texts[*k])
+					});
+				}
+			}
+			let results: Vec<(u8, Vec<u16>)> = results_and_constants.into_iter().map(|r| r.0).collect();
 			let first = &results[0];
 			if results.iter().any(|r| r != first) && results.iter().all(|r| r.0 == first.0)
 			{
